@@ -29,7 +29,7 @@ enum {
 	N_CB, N_CB_IMM, N_CB_NET, N_CB_TMR, N_POLL, N_BLOCK, N_EINTR, N_SIGNAL, N_SPUR, N_HUP,
 	N_POLLERR, N_WORK, N_ENV, N_ACT_IN_CB, N_CANCEL_IN_CB, N_SELF_FD, N_EEXIST, N_ENOENT,
 	N_POLLGROW, N_ALLOCFAIL, N_RUNS, N_SPIN, N_RET_NONZERO, N_INTR_CB, N_INTR_OUT, N_RESET,
-	N_TIE, N_RW_SAME_FD, N_DRAIN_FIRED, N_SIGCLK, N_REG_FAIL, N_RUN_FAIL, N_MAXPEND, N_CLOCKFAIL, N_NOMONO
+	N_TIE, N_RW_SAME_FD, N_DRAIN_FIRED, N_SIGCLK, N_REG_FAIL, N_RUN_FAIL, N_MAXPEND, N_CLOCKFAIL, N_NOMONO, N_FLOOD
 };
 const char * const engine_counters[] = {
 	"callbacks", "cb_immediate", "cb_socket", "cb_timer", "polls", "poll_blocked", "fault_eintr",
@@ -40,7 +40,7 @@ const char * const engine_counters[] = {
 	"probe_interrupt_in_callback", "probe_interrupt_outside", "probe_timer_reset", "probe_timer_tie",
 	"probe_read_and_write_same_fd", "probe_drain_fired", "fault_signal_at_clock_read",
 	"probe_register_failed", "probe_run_failed", "probe_max_pending", "fault_clock_read_failed",
-	"runs_without_monotonic_clock", NULL
+	"runs_without_monotonic_clock", "probe_over_4096_immediates_pending", NULL
 };
 
 /* ---------- ops ---------- */
@@ -95,7 +95,7 @@ struct reg {
 	int dbl;
 	int al;
 };
-#define NREG 2048
+#define NREG 9000
 static struct reg regs[NREG];
 static int nreg;
 static uint64_t seqctr;
@@ -1320,6 +1320,14 @@ engine_gen(struct plan * P, uint64_t seed, struct prng * g)
 			plan_add(P, "step", prng_chance(g, 70) ? "cancel_tmr" : "reset_tmr", 3, (int64_t)prng_n(g, 1000), (int64_t)0, (int64_t)-1);
 	}
 	nsteps = 5 + (int)prng_n(g, 60);
+	{
+		/* rarely: thousands of immediate events pending at once (beyond what the record pool caches) */
+		if (prng_n(g, strcmp(sim_prop, "C14") != 0 ? 150 : 100) == 0) {
+			plan_add(P, "step", "flood_imm", 2, (int64_t)(4090 + prng_n(g, 1200)), (int64_t)prng_n(g, 32));
+			if (prng_chance(g, 70))
+				plan_add(P, "step", "run", 2, (int64_t)0, (int64_t)0);
+		}
+	}
 	for (s = 0; s < nsteps; s++) {
 		int64_t v[4];
 
@@ -1422,6 +1430,25 @@ engine_run(const struct plan * P)
 		}
 		if (!strcmp(l->name, "intr")) {
 			do_op(OP_INTR, 0, 0, 0, &rc);
+			continue;
+		}
+		if (!strcmp(l->name, "flood_imm")) {
+			/* more immediate events pending at once than the library's record pool caches (4096) */
+			int n = l->nargs > 0 ? (int)l->a[0] : 0, k, b0 = budget;
+			int64_t p0 = l->nargs > 1 ? l->a[1] : 0;
+
+			if (n < 0)
+				n = 0;
+			if (n > 6000)
+				n = 6000;
+			for (k = 0; k < n; k++) {
+				budget = 1;
+				op_reg_imm((int)((p0 + (int64_t)k * 7) % 32), -1);
+			}
+			budget = b0;
+			if (n > 4096)
+				R->cnt[N_FLOOD]++;
+			R->steps++;
 			continue;
 		}
 		if ((op = opcode(l->name)) < 0)
